@@ -459,3 +459,46 @@
         kani::cover!(!plain_online && (s.cur[0].flags.value & 0x7F) == 0x01);
         std::mem::forget(s);
     }
+
+    // ---- C11: the all-objects forms of a READ header (qualifier 0x06), incl. a point at the highest index
+    /// one binary input at index IDX configured for g1v1; READ of all binary inputs with the requested variation `req`
+    fn all_objects_contract(idx: u16, req: Option<StaticBinaryInputVariation>) {
+        let mut s = new_series::<1>([idx]);
+        let snap = s.cur[0];
+        let iin2 = s.db.select(StaticReadHeader::Binary(req, None));
+        assert!(iin2.value == 0);
+        // the snapshot is taken at request time, also for the point at the top of the index range
+        assert!(s.db.binary.inner.get(&idx).unwrap().selected == snap);
+        update_all(&mut s);
+        unsafe { PV_N = 0; }
+        let mut buf = [0u8; 8];
+        let mut cursor = WriteCursor::new(&mut buf);
+        let res = s.db.write(&mut cursor);
+        assert!(res.is_ok());
+        assert!(unsafe { PV_N } == 1);
+        let plain_online = (snap.flags.value & 0x7F) == 0x01;
+        let expect = match req {
+            Some(StaticBinaryInputVariation::Group1Var2) => 2,                      // the REQUESTED variation wins over the configured one
+            _ => if plain_online { 1 } else { 2 },                                  // g1v1 requested or default: packed only for plain ONLINE
+        };
+        assert!(unsafe { PV_VAR[0] } == expect);
+        assert!(s.db.binary.inner.get(&idx).unwrap().selected == snap);
+        std::mem::forget(s);
+    }
+
+    // @harness ids=C11,C10 tier=quick fsa=2048 stubs=1 kind=bounded bound="one binary input at index 7 / at index 65535, configured g1v1" units=outstation::database::details::range::static_db::StaticDatabase::select_by_type,outstation::database::details::range::static_db::PointMap::select_all_with_variation,outstation::database::details::range::static_db::PointMap::select_range_with_variation timeout=900 note="READ all objects of a type (qualifier 06): with a specific variation the REQUESTED variation is reported (not the configured default); with variation 0 the configured one; the request-time snapshot is taken for every existing point including index 65535"
+    #[kani::proof]
+    #[kani::unwind(6)]
+    #[kani::stub(RangeWriter::write, RangeWriter::stub_write_logvar)]
+    fn vk_c11_all_objects_variation_and_top_index() {
+        let which: u8 = kani::any();
+        kani::assume(which < 4);
+        match which {
+            0 => all_objects_contract(7, Some(StaticBinaryInputVariation::Group1Var2)),
+            1 => all_objects_contract(7, None),
+            2 => all_objects_contract(65535, Some(StaticBinaryInputVariation::Group1Var2)),
+            _ => all_objects_contract(65535, None),
+        }
+        kani::cover!(which == 2);
+        kani::cover!(which == 1);
+    }
